@@ -12,6 +12,7 @@ In concrete mode (the concolic replay of every path) the same frames are additio
 in both candump text formats and read back through read_telegrams (witness level).
 """
 import asyncio
+import contextlib
 import io
 import itertools
 
@@ -50,12 +51,18 @@ def _render(frames_with_ids, fmt):
     lines = []
     for rid, fr in frames_with_ids:
         b = bytes(fr)
-        if fmt == "candump":
+        if fmt.startswith("candump"):
             lines.append(f"  can0  {rid:03X}   [{len(b)}]  " + " ".join(f"{x:02X}" for x in b))
-        elif fmt == "log":
+        elif fmt.startswith("log"):
             lines.append(f"(1600000000.000000) can0 {rid:03X}#" + b.hex().upper())
         elif fmt == "fdlog":
             lines.append(f"(1600000000.000000) can0 {rid:03X}##1" + b.hex().upper())
+    if fmt.endswith("+noise") and lines:
+        # lines that are not frames (blank, white space, remarks) are not frames: a log that
+        # contains them still holds the same frames
+        lines[1:1] = ["", "   ", "# remark"]
+        lines.append("")
+        lines.append("; end of capture")
     return "\n".join(lines) + "\n"
 
 
@@ -69,7 +76,8 @@ def _read_log(ids, text):
             out.append((t[0], bytes(t[1])))
         return out
 
-    return asyncio.run(go())
+    with contextlib.redirect_stdout(io.StringIO()):  # "unrecognized frame format" warnings
+        return asyncio.run(go())
 
 
 def _check_logs(sx, ids, sent, expected, fs):
@@ -77,7 +85,7 @@ def _check_logs(sx, ids, sent, expected, fs):
     if sx.sym:
         return
     exp = [(i, bytes(p)) for i, p in expected]
-    fmts = ["candump", "log"] if fs <= 8 else ["candump", "fdlog"]
+    fmts = ["candump", "log", "candump+noise", "log+noise"] if fs <= 8 else ["candump", "fdlog"]
     for fmt in fmts:
         if any(len(f) == 0 for _, f in sent):
             continue  # the text formats cannot express an empty frame
